@@ -129,6 +129,8 @@ def monitor (mn : Mon) (i : In) (impl : String) : Mon × List (String × String 
 structure St where
   model : Option Srv := none
   mon : Mon := {}
+  /-- Server.Stop() was called: the receive loop is gone, every later frame is inert -/
+  stopped : Bool := false
 
 def step (st : St) (toks : List String) (impl : String) : St × LineResult :=
   match toks with
@@ -136,7 +138,22 @@ def step (st : St) (toks : List String) (impl : String) : St × LineResult :=
     match bits.toNat? with
     | some b => ({ model := some (init (r == "radius") b), mon := { radius := r == "radius", total := (poolAddrs b).length } }, { modelObs := "ok" })
     | none => (st, { modelObs := "badop" })
+  | ["stop"] =>
+    -- Server.Stop closes the socket and nothing else: the model state is unchanged (recorded gap KF-shutdown-no-teardown)
+    match st.model with
+    | some m =>
+      let left := (parseObs impl).seen.length
+      ({ st with stopped := true },
+       { modelObs := showSrv m [],
+         viols := if left > 0 then
+           [("residue", "KF-shutdown-no-teardown", s!"Server.Stop left {left} session(s) in place: no PADT, no address released")] else [] })
+    | none => (st, { modelObs := "badop" })
   | _ =>
+    if st.stopped then
+      match st.model with
+      | some m => (st, { modelObs := showSrv m [] })
+      | none => (st, { modelObs := "badop" })
+    else
     match st.model, parseIn toks with
     | some m, some i =>
       let (m', outs) := PppoeServer.step m i
